@@ -98,3 +98,37 @@ Definition has_switch (tr : list (N * trig)) : bool :=
 (* C05 stage 1: -F / -N / -D option sets against the tree-recursive specification [sel] *)
 Definition ok_sel (flt : list (N * option bool)) (fm : bool) (gd thr : N) (f : list call) (orecs : list seen5) : bool :=
   list_eqb seen_eqb orecs (map ideal (flat_map (sel (assoc None flt) gd thr (x0 fm gd) 0) f)).
+
+(* ---------------------------------------------------------------- embedded sub-history (C02 / C05, any filter set)
+   the observed stream is the flattening (depth = number of open recorded calls) of a forest obtained from the
+   call history by leaving calls out; backtracking matcher with a success continuation *)
+Definition is_rec (r : seen5) (ty a t d : N) : bool :=
+  let '(tm, ty', mg, dep, ad) := r in
+  (tm =? t) && (ty' =? ty) && (mg =? RECORD_MAGIC) && (dep =? d) && (ad =? a).
+Fixpoint mcall (c : call) (d : N) (l : list seen5) (k : list seen5 -> bool) {struct c} : bool :=
+  match c with
+  | Call a t0 t1 kids =>
+      let kids_m := (fix go (ks : list call) (d' : N) (l : list seen5) (k : list seen5 -> bool) {struct ks} : bool :=
+                       match ks with
+                       | [] => k l
+                       | x :: r => mcall x d' l (fun l' => go r d' l' k)
+                       end) in
+      if (match l with
+          | r :: l' =>
+              if is_rec r UFTRACE_ENTRY a t0 d
+              then kids_m kids (d + 1) l' (fun l2 => match l2 with
+                                                     | x :: l3 => if is_rec x UFTRACE_EXIT a t1 d then k l3 else false
+                                                     | [] => false
+                                                     end)
+              else false
+          | [] => false
+          end)
+      then true
+      else kids_m kids d l k
+  end.
+Fixpoint mforest (f : list call) (d : N) (l : list seen5) (k : list seen5 -> bool) : bool :=
+  match f with
+  | [] => k l
+  | x :: r => mcall x d l (fun l' => mforest r d l' k)
+  end.
+Definition ok_emb (f : list call) (orecs : list seen5) : bool := mforest f 0 orecs (fun l => is_nil l).
